@@ -399,6 +399,12 @@ def gen_cases(ctx):
         for variant in ctx.scale(["S p A", "A S"], ["S p A", "S A", "A S", "A p S"]):
             for pre in ("", "B4 ", "P64 "):
                 cases.append(("%scw W %s %s %s Z" % (pre, " ".join(["s0"] * k), " ".join("a%d" % i for i in range(k)), variant), "long-backlog"))
+    # an HTTP call that is answered but whose (large) response is still being written when the stop signal comes: the client is
+    # not reading, nothing else is in flight anywhere on the server; the answer must still arrive in full before `stopped`
+    for pad in ctx.scale([8192], [4096, 8192, 16384]):
+        cases.append(("P%d ch W s0 a0 q0 r0 f0 p p S p p g0 y0 Z" % pad, "http-answered-unsent"))
+        cases.append(("P%d ch W s0 a0 q0 r0 f0 p S S p g0 y0 Z" % pad, "http-answered-unsent"))
+        cases.append(("P%d ch ch W s0 a0 q0 r0 f0 p p S p s1 p g0 y0 Z" % pad, "http-answered-unsent"))
     cases.append(("P256 cW W %s %s q0 S p A p p g0 Z" % (" ".join(["s0"] * 20), " ".join("a%d" % i for i in range(20))), "long-backlog"))
     for _ in range(ctx.scale(6, 60)):
         for _try in range(50):
